@@ -179,6 +179,32 @@ StrValues == Atoms \cup Extremes \cup Depth1 \cup Depth2 \cup ToJSONVals \cup Cy
 RtValues == {v \in Atoms \cup Depth1 \cup Depth2 : Representable(v)}
 RtTexts == SeqSet(BaseTexts) \cup SeqSet(BaseTextsMore) \cup SeqSet(ExtraTexts) \cup (IF Deep THEN SeqSet(ExtraHeavyTexts) ELSE {})
 
+(* values written directly in JavaScript: what 15.12.3 sees of them is the   *)
+(* model value v (own enumerable data, [[Class]], [[PrimitiveValue]])        *)
+Special(src, v, sp) == [fam |-> "special", src |-> src, v |-> v, sp |-> sp]
+SharedObj == O1(Ka, IntV(1))
+SpecialCases ==
+    {Special("(function(){var o=Object.create({p:1});o.a=2;return o})()", O1(Ka, IntV(2)), NoSp),            \* inherited properties are not serialised
+     Special("Object.defineProperty({a:1},'h',{value:2,enumerable:false})", O1(Ka, IntV(1)), NoSp),        \* nor non-enumerable ones
+     Special("Object.defineProperty({a:1},'h',{value:2,enumerable:true,writable:false})", O2(Ka, IntV(1), <<104>>, IntV(2)), NoSp),
+     Special("(function(){return arguments})(1,'x')", O2(<<48>>, IntV(1), <<49>>, StrV(<<120>>)), NoSp),   \* class Arguments is not an array
+     Special("(function(){var a=[1,2];a.x=3;return a})()", A2(IntV(1), IntV(2)), NoSp),
+     Special("(function(){var a=[];a[3]=1;return a})()", S!Arr(<<S!Hole, S!Hole, S!Hole, IntV(1)>>), NoSp),
+     Special("({get a(){return 5},b:1})", O2(Ka, IntV(5), Kb, IntV(1)), NoSp),                                 \* [[Get]] runs getters
+     Special("Math", S!Obj(<<>>), NoSp), Special("JSON", S!Obj(<<>>), NoSp), Special("/x/g", S!Obj(<<>>), NoSp),
+     Special("[Math,parseInt,/x/]", S!Arr(<<S!Obj(<<>>), PlainFn, S!Obj(<<>>)>>), IntV(1)),
+     Special("new String('ab')", S!Wrap("String", StrV(<<97, 98>>)), NoSp),
+     Special("Object('s')", S!Wrap("String", StrV(<<115>>)), NoSp), Special("Object(7)", WN(7), NoSp), Special("[Object(true)]", A1(S!Wrap("Boolean", BoolV(TRUE))), NoSp),
+     Special("(function(){var b=new Boolean(false);b.valueOf=function(){return true};return b})()", BoolV(FALSE), NoSp),   \* step 4.c: [[PrimitiveValue]]
+     Special("(function(){var n=new Number(1);n.valueOf=function(){return 5};return n})()", IntV(5), NoSp),                 \* step 4.a: ToNumber
+     Special("(function(){var s=new String('a');s.toString=function(){return 'z'};return s})()", StrV(<<122>>), NoSp),      \* step 4.b: ToString
+     Special("(function(){var f=function(){};f.a=1;return [f,{f:f}]})()", A2(PlainFn, O1(<<102>>, PlainFn)), NoSp),
+     Special("new Date(0)", StrV(S_iso_epoch), NoSp), Special("[new Date(0)]", A1(StrV(S_iso_epoch)), NoSp),       \* Date.prototype.toJSON (15.9.5.44)
+     Special("new Date(NaN)", Null, NoSp),
+     Special("(function(){var s={a:1};return [s,s,{x:s}]})()", S!Arr(<<SharedObj, SharedObj, O1(<<120>>, SharedObj)>>), NoSp),  \* shared, not cyclic
+     Special("(function(){var s=[1];return {p:s,q:{r:s}}})()", O2(<<112>>, A1(IntV(1)), <<113>>, O1(<<114>>, A1(IntV(1)))), IntV(1)),
+     Special("Object.keys({b:1,a:2})", A2(StrV(Kb), StrV(Ka)), NoSp)}
+
 ListCases ==
     {ParseCase(t, NoRv) : t \in SeqSet(ExtraTexts) \cup SeqSet(ExtraHeavyTexts) \cup SeqSet(SurrTexts) \cup SeqSet(BaseTextsMore)}
     \cup {ParseCase(t, rv) : t \in SeqSet(ReviveTexts), rv \in Revivers}
@@ -188,6 +214,7 @@ ListCases ==
     \cup {StrCase(v, rp, sp) : v \in RepVals, rp \in FnReps \cup ListReps \cup OtherReps, sp \in {NoSp, IntV(1)}}
     \cup {StrCase(v, [k |-> "id"], NoSp) : v \in CycleVals \cup ToJSONVals}
     \cup {StrCase(v, NoRp, sp) : v \in SpaceVals, sp \in Spaces}
+    \cup SpecialCases
     \cup {[fam |-> "rt1", v |-> v] : v \in RtValues}
     \cup {[fam |-> "rt2", text |-> t] : t \in RtTexts}
 
@@ -247,6 +274,7 @@ Js(c) ==
     CASE c.fam = "parse" -> <<"JSON.parse(", Lit(StrV(c.text))>> \o (IF c.rv.k = "none" THEN <<>> ELSE <<",">> \o JsRv(c.rv)) \o <<")">>
       [] c.fam = "parsearg" -> <<"JSON.parse(", Lit(c.arg), ")">>
       [] c.fam = "str" -> JsStringify(c.v, c.rp, c.sp)
+      [] c.fam = "special" -> <<"JSON.stringify(" \o c.src>> \o (IF c.sp.t = "absent" THEN <<>> ELSE <<",null,">> \o JsOf(c.sp, 0)) \o <<")">>
       [] c.fam = "rt1" -> <<"JSON.parse(">> \o JsStringify(c.v, NoRp, NoSp) \o <<")">>
       [] c.fam = "rt2" -> <<"JSON.stringify(JSON.parse(", Lit(StrV(c.text)), "))">>
 
@@ -279,12 +307,14 @@ Strict(c) ==
     CASE c.fam = "parse" -> CHOOSE x \in S!ParseOutcomes(c.text, SpecRv(c.rv)) : TRUE
       [] c.fam = "parsearg" -> CHOOSE x \in S!ParseOutcomes(ArgText(c.arg), NoRv) : TRUE
       [] c.fam = "str" -> S!SOutcome(S!Stringify(c.v, c.rp, c.sp))
+      [] c.fam = "special" -> S!SOutcome(S!Stringify(c.v, NoRp, c.sp))
       [] c.fam = "rt1" -> Rt1Strict(c)
       [] c.fam = "rt2" -> Rt2Strict(c)
 Deviating(c) ==
     CASE c.fam = "parse" -> L!ParseOutcomes(c.text, SpecRv(c.rv))
       [] c.fam = "parsearg" -> L!ParseOutcomes(ArgText(c.arg), NoRv)
       [] c.fam = "str" -> {L!SOutcome(L!Stringify(c.v, c.rp, c.sp))}
+      [] c.fam = "special" -> {L!SOutcome(L!Stringify(c.v, NoRp, c.sp))}
       [] c.fam = "rt1" -> Rt1Dev(c)
       [] c.fam = "rt2" -> Rt2Dev(c)
 
